@@ -11,6 +11,7 @@ import (
 	"pgregory.net/rapid"
 
 	elysapp "github.com/elys-network/elys/app"
+	ammtypes "github.com/elys-network/elys/x/amm/types"
 	lptypes "github.com/elys-network/elys/x/leveragelp/types"
 	mctypes "github.com/elys-network/elys/x/masterchef/types"
 	oracletypes "github.com/elys-network/elys/x/oracle/types"
@@ -122,12 +123,69 @@ var ProfileC02 = &Profile{
 	},
 }
 
+// c05ExtraOps: right after a leveraged position was force-closed (its shares left the pool through the liquidation
+// path), a liquidity provider exits with a single asset – the first thing that happens to the pool afterwards.
+func c05ExtraOps(h *History, g *G) []*Op {
+	if h.Prev == nil {
+		return nil
+	}
+	s := g.S
+	forcedPools := map[uint64]bool{}
+	last := h.W.LastBlock()
+	for _, p := range h.Prev.LPPositions {
+		gone := true
+		for _, q := range s.LPPositions {
+			if q.Id == p.Id && q.LeveragedLpAmount.Equal(p.LeveragedLpAmount) {
+				gone = false
+			}
+		}
+		if !gone {
+			continue
+		}
+		byOwner := false
+		if last != nil {
+			for _, tx := range last.Txs {
+				if m, ok := tx.Msg.(*lptypes.MsgClose); ok && tx.Code == 0 && m.Id == p.Id {
+					byOwner = true
+				}
+			}
+		}
+		if !byOwner {
+			forcedPools[p.AmmPoolId] = true
+		}
+	}
+	var ops []*Op
+	for _, id := range []uint64{1, 2, 3} {
+		if !forcedPools[id] {
+			continue
+		}
+		pool := s.Pool(id)
+		if pool == nil {
+			continue
+		}
+		d := ammtypes.GetPoolShareDenom(id)
+		for _, a := range h.W.AllKeyed() {
+			have := s.CommittedOf(a.Addr.String(), d)
+			if !have.IsPositive() || g.Busy[a.Addr.String()] {
+				continue
+			}
+			g.Busy[a.Addr.String()] = true
+			h.Labels["c05-exit-right-after-forced-close"]++
+			out := pool.PoolAssets[g.Pick("c05/exitdenom", len(pool.PoolAssets))].Token.Denom
+			shares := maxInt(have.MulRaw(int64(g.Int("c05/exitpct", 1, 60))).QuoRaw(100), sdkmath.OneInt())
+			ops = append(ops, &Op{Signer: a, Kind: "c05.single_exit_after_forced_close", Msg: &ammtypes.MsgExitPool{Sender: a.Addr.String(), PoolId: id, MinAmountsOut: sdk.Coins{}, ShareAmountIn: shares, TokenOutDenom: out}})
+			break
+		}
+	}
+	return ops
+}
+
 // chain-level part of C05: join/exit dominated histories, swaps and price moves only now and then
 var ProfileC05 = &Profile{
 	MultiMsg: true,
-	ID:       "C05", Name: "lp-value", MinBlocks: 6, MaxBlocks: 40, MaxTxs: 4, Spec: withSkew(specDefault), Check: CheckC05Chain,
-	Weights: map[string]int{"amm.join": 16, "amm.exit": 18, "leveragelp.open": 5, "leveragelp.close": 4, "amm.swap_in": 3, "amm.swap_out": 2,
-		"oracle.feed_price": 2, "perpetual.open": 1, "perpetual.close": 2, "stablestake.bond": 2, "bank.send": 1},
+	ID:       "C05", Name: "lp-value", MinBlocks: 6, MaxBlocks: 40, MaxTxs: 4, Spec: withSkew(specLending), Check: CheckC05Chain, ExtraOps: c05ExtraOps,
+	Weights: map[string]int{"amm.join": 16, "amm.exit": 18, "leveragelp.open": 8, "leveragelp.close": 4, "leveragelp.close_positions": 3, "amm.swap_in": 3, "amm.swap_out": 2,
+		"oracle.feed_price": 4, "perpetual.open": 1, "perpetual.close": 2, "stablestake.bond": 2, "bank.send": 1},
 	Rule: "history with >=3 judged pool-blocks (only joins/exits, unchanged prices, no perpetual exposure) of which >=1 after an exit, and >=1 successful single-denom exit",
 	NonTrivial: func(h *History) bool {
 		return h.Labels["c05-judged-pool-blocks"] >= 3 && h.Labels["c05-judged-after-exit"] >= 1 && okCount(h, "amm.exit") > 0
